@@ -169,6 +169,67 @@ def fantasy(S, n, f, m, lik, cfg, pattern, depth):
                 S.prove_eq(A1 @ (Rb @ Rb.T), eye(n1), "carried covar_cache: A_full R R^T = I %s" % (list(b),))
 
 
+def multi_input_fantasy(S, as_tuple, fbatch, cfg):
+    """a model whose forward takes TWO inputs (stub covariance on the first, linear mean on the second): fantasy inputs given as a
+       list or as a tuple (the form the model itself stores its training inputs in); prediction = fresh model on the joined data"""
+    n, f, m = 2, 1, 2
+    N = n + f + m
+
+    class GP2(gpytorch.models.ExactGP):
+        def __init__(self_, xa, xb, y, lik, table):
+            super().__init__((xa, xb), y, lik)
+            self_.mean_module = make_mean("linear")
+            self_.covar_module = TableKernel(table)
+
+        def forward(self_, xa, xb):
+            return gpytorch.distributions.MultivariateNormal(self_.mean_module(xb), self_.covar_module(xa))
+
+    Gs, Gc = S.factor("g", N)
+    table = torch.zeros(N, N)
+    xa, xf, xs = labels(0, n), labels(n, n + f), labels(n + f, N)
+    zb = S.randn(N, 1); Zb = S.sym_tensor(zb, "zb")  # second input: real-valued, symbolic
+    y = S.randn(n); S.sym_tensor(y, "y")
+    fb = (fbatch,) if fbatch else ()
+    yf = S.randn(*fb, f); S.sym_tensor(yf, "yf")
+    lik = gpytorch.likelihoods.GaussianLikelihood()
+    model = GP2(xa, zb[:n], y, lik, table)
+    for p in model.parameters():
+        p.requires_grad_(False)
+    declare_params(S, model.mean_module, "mean_")
+    declare_params(S, lik, "lik_")
+    with S.mode():
+        sig = as_sym_arr(SH.get(lik.noise)).reshape(-1)[0]
+        J = Gs @ Gs.T
+        K = J.copy()
+        for i in range(n + f):
+            K[i, i] = K[i, i] - sig
+        with torch.no_grad():
+            table.copy_(Gc @ Gc.T)
+            for i in range(n + f):
+                table[i, i] -= sig.c
+        SH.put(table, K, check=True)
+        model.eval(); lik.eval()
+        with settings_ctx(cfg):
+            _ = model(xs, zb[n + f:]).mean
+            fin = (xf, zb[n:n + f])
+            with pinverse_by_contract():
+                fm = S.must_not_raise("get_fantasy_model with the fantasy inputs of a two-input model given as a %s" % ("tuple" if as_tuple else "list"),
+                                      lambda: model.get_fantasy_model(fin if as_tuple else list(fin), yf))
+            out = fm(xs, zb[n + f:])
+            mean_t, cov_t = out.mean, out.covariance_matrix
+        for b in np.ndindex(*fb):
+            l2 = gpytorch.likelihoods.GaussianLikelihood()
+            ref = GP2(labels(0, n + f), zb[:n + f], torch.cat([y, yf[b]]), l2, table)
+            with torch.no_grad():
+                src = dict(model.named_parameters())
+                for nme, p in ref.named_parameters():
+                    p.copy_(src[nme])
+            ref.eval(); l2.eval()
+            ro = ref(xs, zb[n + f:])
+            S.prove_eq(mean_t[b], as_sym_arr(SH.get(ro.mean)), "fantasy %s mean = fresh two-input model on the joined data" % (list(b),))
+            S.prove_eq(np.broadcast_to(as_sym_arr(SH.get(cov_t)), fb + (m, m))[b], as_sym_arr(SH.get(ro.covariance_matrix)), "fantasy %s covariance = fresh two-input model" % (list(b),))
+
+
 def model_list_fantasy(S, lik, cfg):
     """IndependentModelList.get_fantasy_model: member k of the fantasy list = member k conditioned on ITS OWN fantasy data
        (routing of inputs / targets / per-member noise), source list untouched"""
@@ -346,4 +407,7 @@ def scenarios(tier, seed):
             for dp in (1, 2):
                 out.append({"sid": "wiski_fantasy:fpv=%s,depth=%d" % (fpv_, dp), "fn": "wiski_fantasy", "params": {"fpv": fpv_, "depth": dp}})
         out.append({"sid": "multitask_fantasy:n=2,f=1,m=1,t=2,fbatch=0", "fn": "multitask_fantasy", "params": {"n": 2, "f": 1, "m": 1, "t": 2, "cfg": cfgs[0], "fbatch": 0}})
+    for tup, fbt, cf in ((True, 0, {}), (False, 2, {"fpv": True})) + (((True, 2, {"detach": False}), (False, 0, {"fpv": True, "detach": False})) if tier != "quick" else ()):
+        out.append({"sid": "multi_input_fantasy:as_tuple=%s,fbatch=%d,cfg=%s" % (tup, fbt, cfg_id(cf)), "fn": "multi_input_fantasy",
+                    "params": {"as_tuple": tup, "fbatch": fbt, "cfg": cf}})
     return out
